@@ -2,6 +2,12 @@
 from props_table import PROPS
 
 META = {
+    "C04": {
+        "text": "Two-level Lean 4 model of the miner's sector bookkeeping: Level 2 follows actors/miner/src/partition_state.rs, expiration_queue.rs, bitfield_queue.rs branch by branch (five bitfields, four power memos, quantised expiration queue with find_sectors_by_expiration / reschedule_as_faults / reschedule_all_as_faults / reschedule_recovered / remove_sectors / pop_until, early-termination queue, every error return, validate_state); Level 1 gives every sector one status and DEFINES every summary as the recomputed sum. Proved for all histories: status_partition (the five sets nest/exclude as the protocol defines after any sequence of all twelve partition methods), memo_eq_recompute_partial (live/unproven/faulty/recovering/active power memos equal the Level-1 recomputed values after any sequence of add_sectors, record_faults, declare_faults_recovered, recover_faults, activate_unproven, record_missed_post, record_skipped_faults, pop_early_terminations), queue_returns_power_of_sectors, validate_state_never_fires_partial (Partition::validate_state is implied by the invariants), sector_number_once (allocated bitfield only grows; DenyCollisions rejects any intersection, for ever). The model is tied to the code on every run by differential execution of random operation sequences on the REAL fil_actor_miner::Partition/ExpirationQueue/State::allocate_sector_numbers against the compiled model (all bitfields, memos, every queue entry, returned values compared after every call), with an independent oracle that recomputes every set relation, every partition memo and every per-epoch expiration-set memo from the sector infos.",
+        "design_ref": "DESIGN.md §7 C02 / C04",
+        "note": "PARTIAL on the proof side: the memo refinement is NOT yet proved for terminate_sectors, pop_expired_sectors, reschedule_expirations, replace_sectors, nor for the per-epoch ExpirationSet memos (pledge/active/faulty/fee sums, on-time/early sets) and Deadline-level counters; for those the evidence is the differential correspondence plus the recomputation oracle on the real code (DS level) and the actor-level oracle. status_partition covers all twelve methods but uses the final validate_state call of each method for the ⊆ sectors facts. 'every on-chain sector belongs to exactly one partition of exactly one deadline' is checked by the actor-level oracle only. Trusted: Lean kernel, the hand-written model's differential tie (bounded by generator coverage in the evidence), ideal sets for RLE bitfields/AMTs.",
+        "technique": "Lean 4 invariant + refinement proofs over a two-level model; differential correspondence against the real data structures; recomputation oracle",
+    },
     "C16": {
         "text": "Lean 4 theorems over a model of the paych actor that follows the Rust control flow: acceptance soundness (update_sound), exact owed delta, lane-nonce monotonicity and no_replay over arbitrary later histories, 0 <= owed <= balance in every reachable state (inv_owed), settlement height only extends, collect_exact and collect_after_delay (>= settle epoch + 1440). The model is tied to the code on every run by differential execution of generated voucher/settle/collect histories on the real actor in the harness VM against the compiled model, with an independent oracle evaluating the property on the real state.",
         "design_ref": "DESIGN.md §7 C16",
